@@ -271,12 +271,14 @@ def check_case(T, case):
     e0 = Env()
     base, exc = r.run(e0)
     if exc is not None:
-        raise RuntimeError('harness: fault-free run of %r raised %r' % (case, exc))
+        # nothing was injected: the tree under test fails a plain call (possibly poisoned by an earlier case in this worker)
+        T.violation('faults', 'fault-free-run-fails', {'case': list(case), 'fail_at': None, 'kind': None, 'exception': None}, detail='without any injected fault the case raised %r' % (exc,))
+        return
     e0b = Env()
     base2, _ = r.run(e0b)
     if base2 != base or e0b.kinds != e0.kinds:
         raise RuntimeError('harness nondeterminism: fault-free run of %r is not repeatable' % (case,))
-    snap0 = c11.snap_digest(c11.global_snapshot())
+    snap0 = c11.snap_digest(c11.global_snapshot(subclasses=False))
     N = e0.n
     T.count('invocations', N)
     for i in range(N):
@@ -297,11 +299,15 @@ def check_case(T, case):
             nxt, exc2 = r.run(Env())
             if exc2 is not None or nxt != base:
                 T.violation('faults', 'next-call-affected', cs, detail='after the failed call the same case fault-free gives %.200r (exception %r); baseline %.200r' % (nxt, exc2, base))
-            if reference_call() != REFERENCE:
-                T.violation('faults', 'reference-call-affected', cs, detail='a fixed reference call gives a different result after the failed call')
-            if c11.snap_digest(c11.global_snapshot()) != snap0:
+            try:
+                ref_now = reference_call()
+            except BaseException as e2:
+                ref_now = ('raised', type(e2).__name__, str(e2)[:120])
+            if ref_now != REFERENCE:
+                T.violation('faults', 'reference-call-affected', cs, detail='a fixed reference call gives %.200r after the failed call; baseline %.200r' % (ref_now, REFERENCE))
+            if c11.snap_digest(c11.global_snapshot(subclasses=False)) != snap0:
                 T.violation('faults', 'global-state-changed', cs, detail='library-global state differs after the failed call')
-                snap0 = c11.snap_digest(c11.global_snapshot())
+                snap0 = c11.snap_digest(c11.global_snapshot(subclasses=False))
             T.outcome((e0.kinds[i], type(exc).__name__ if exc else None))
     T.sample('faults', {'case': list(case), 'invocations': N, 'kinds': sorted(set(e0.kinds))})
 
